@@ -8,16 +8,20 @@ LEVEL = 'proof'
 RULE = ('all ordered pairs of ndarray operands of rank 1..3, extents 1..E (same shape: identical data and a perturbation at every '
         'position; same size/different shape; different size: common prefix data), index arrays (dynamic and fixed length, prefix / longer), '
         'numbers, optionals (empty/non-empty on either side), eithers (left=num, right=ndarray), tuples, views (double transpose); '
+        'dispatch coverage (op disp, both operand orders in one answer): all pairs over {bare Nothing literal, number, integral constant, '
+        'index array (dynamic / fixed / constant tuple), ndarray, tuple} x {plain, engaged / empty optional, either alternative, '
+        'optional of either, either of optional} that compile, for isequal and for isclose with eps 8 / 1 / default; '
         'NDEBUG and assert-enabled sanitizer builds. non-trivial = operands differ in shape, length, wrapper or exactly one element')
 EXHAUSTIVE = {'quick': True, 'thorough': True}
-ANCHORS = {'NmVerif.IsEqual.isequal': 'nmtools::utils::isequal (utility/isequal.hpp)', 'NmVerif.IsEqual.iscloseNd': 'nmtools::utils::isclose (utility/isclose.hpp)'}
+ANCHORS = {'NmVerif.IsEqual.isequal': 'nmtools::utils::isequal (utility/isequal.hpp)', 'NmVerif.IsEqual.isclose': 'nmtools::utils::isclose over optionals / eithers / tuples (utility/isclose.hpp:147-350)', 'NmVerif.IsEqual.iscloseNd': 'nmtools::utils::isclose (utility/isclose.hpp)'}
 MANIFEST = dict(
     text='Proof: Lean theorems that the model of isequal/isclose is exactly "same dimension and shape and all elements equal (resp. closer than eps)", total (never reads outside an operand for ANY pair of shapes), symmetric, reflexive, and treats optionals/eithers/tuples as the property states; the model is tied to utility/isequal.hpp and isclose.hpp by an exhaustive small-scope differential run (NDEBUG build and assert+ASan+UBSan build) on every check.',
     note='Lean kernel + propext/Classical.choice/Quot.sound. Which isequal branch is taken is a compile-time fact of the operand types: modelled by the Val constructors, validated by the harness pairings (fixed/raw array kinds are in C09). Element type modelled as Int; isclose arithmetic is exact integers in double.',
     technique='Lean 4 functional-induction proofs over the operand grammar + C01 round-trip lemma; differential correspondence incl. sanitizer build')
 ASSUMPTIONS = ['element comparison of the C++ (== on a promoted common type) is equality on the mathematical values for the int data used',
                'compile-time rejected pairings (different tuple sizes, number vs array) are not run-time behaviour']
-PARTIAL = []
+PARTIAL = ['isclose_eq_ref: the code equals the reference (caller eps on every element) only where no either-vs-plain branch is taken or eps is the default; '
+           'on the remaining class the unchanged code violates the property (isclose_either_plain_counterexample, finding isclose.either-plain-eps)']
 
 EITHER_W = ('left', 'right', 'jleft', 'jright', 'lj', 'ln', 'mr')
 
